@@ -22,12 +22,18 @@
    reversibility at the level of the dense state (needs gauge covariance of every local flow under the unitary bond gauges
    introduced by the intermediate QR / orthonormalize calls).  Both are searched by prop() against scipy.linalg.expm.
    UPDATE: the reversibility clause IS now proved, relative to explicit contracts, for every L and every number of steps --
-   see the section REVERSIBILITY AT THE LEVEL OF THE DENSE STATE at the end of this file (C09_reversible). *)
+   see the section REVERSIBILITY AT THE LEVEL OF THE DENSE STATE below (C09_reversible).
+   UPDATE 2: the EXACTNESS clause is now proved for single-site TDVP WITHOUT quantum numbers, every L >= 1 and every number of
+   steps, relative to an abstract exact global flow G and explicit contracts on the local solvers -- see the section EXACTNESS
+   ON A COMPLETE MANIFOLD at the end of this file (C09_exact_complete, C09_exact_L1, C09_exact_L2).  Still NOT proved: the
+   two-site integrator; the variant with quantum numbers (known to FAIL in some sectors: finding K1); that the floating-point
+   Krylov exponential meets the contracts. *)
 From Coq Require Import ZArith QArith Qcanon List Bool Lia.
 From PT Require Import Base.Scalar Base.Field Base.BigSum Base.Mx Model.Tensor Model.Operation Model.Sweeps
   Proofs.SweepsSched Proofs.SweepsFlow Proofs.SweepsCheck Proofs.SweepsExample
   Proofs.OperationEntries Proofs.SweepsCanon Proofs.ReverseDefs Proofs.ReverseGauge Proofs.ReverseQR Proofs.ReverseFwd Proofs.ReversePair
-  Proofs.ReverseL1 Proofs.ReverseLocal Proofs.ReverseTop Proofs.ReverseExample.
+  Proofs.ReverseL1 Proofs.ReverseLocal Proofs.ReverseTop Proofs.ReverseExample
+  Proofs.ExactDefs Proofs.ExactLocal Proofs.ExactStep Proofs.ExactRun Proofs.ExactExample.
 Import ListNotations.
 
 Theorem C09_tdvp1_schedule_palindrome : forall L, rev (sched1 L) = sched1 L.
@@ -220,3 +226,112 @@ Example C09_reversible_nontrivial :
   list_eqb (keqb Qcring) (amps (m_A (fst (x_orth xPsi)))) (map (kmul Qcring (rn x_run2)) (amps (rA x_run2))) &&
   keqb Qcring (rn x_run2) (xq 2 1) && Nat.eqb (length (rt x_run1)) 18 = true.
 Proof. exact x_nontrivial. Qed.
+
+(* =====================================================================================================================
+   EXACTNESS ON A COMPLETE MANIFOLD (first sentence of the property), single-site integrator, no quantum numbers, relative to
+   an abstract exact global flow  G t : dense vectors -> dense vectors  (dense d L As = the amplitudes of the chain As on all
+   words, in the order of [words] = as_vector).  Contracts (Proofs/ExactDefs.v; all restricted to the tensors W of the given
+   operator and to the given bond profile Ds; none mentions a run):
+     (F)  kexp_flowH       the site solver keeps shapes, solver(0) = id, solver(t) o solver(s) = solver(s + t);
+     (S0) kexp0_shape      the bond solver keeps shapes;
+     (IL) intertwine_left  site solver on Q.C = Q.(bond solver on C, left block updated by the model's
+                           contraction_operator_step_left Q Q W BL) for left-UNITARY Q (Q^H Q = 1 and Q Q^H = 1);
+     (IR) intertwine_right site solver on C.B = (bond solver on C, right block updated by contraction_operator_step_right).B
+                           for right-unitary B;
+          -- these encode  H_site (Q (x) 1) = (Q (x) 1) H_bond  (PROVED for the model's local operators:
+             C09_local_operators_intertwine_left / _right below) plus  "H1 V = V H2  =>  exp(t H1) V = V exp(t H2)";
+     (A)  kexp_global G m  if every tensor left of site m is left-unitary and every tensor right of it right-unitary (complete
+                           frames) and the environment blocks are the ones the model builds from them, then evolving the tensor
+                           at site m by the site solver for time t changes the dense state by G t
+          -- encodes  H_eff = V^H H V  (Proofs/OperationLocal.v) plus  exp(t V^H H V) = V^H exp(t H) V  for unitary V;
+     (G)  G_flow           G 0 = id and G t o G s = G (s + t) on dense vectors of chains.
+   Hypotheses on the run: "complete manifold" = complete_profile (Ds 0 = Ds L = 1, d * Ds j = Ds (j+1) left of the split site
+   m, Ds j = d * Ds (j+1) right of it; e.g. Ds j = min(d^j, d^(L-j)) with m = the middle), the orthonormalised start tensors
+   right of m are right-unitary, hdt + hdt = dt, and per recorded QR call (ex_tr_ok): LAPACK's contract qr_ok, a well-formed R
+   factor with as many rows as the input has columns, and orthonormal ROWS of Q when the input is square (over C a
+   consequence of qr_ok; not derivable in a commutative ring without determinants).  No uniqueness of QR, no gauge covariance
+   and no invertibility is needed.
+   Conclusion, mirroring what evolution.py returns (the state is normalised by orthonormalize first, its norm is returned):
+     nrm = the number reported by orthonormalize,  dense(result) = G (n * dt) (dense(normalised start state)).
+   Proof (Lubich-Oseledets-Vandereycken): left of m the K-step and the S-step of a loop body cancel; at m the K-step is
+   G(dt/2); right of m the S-step of one body cancels against the K-step of the next; symmetric in the backward half sweep. *)
+
+(* the model's local operators intertwine: H_site (Q (x) 1) = (Q (x) 1) H_bond when Q Q^H = 1, and the mirror image *)
+Theorem C09_local_operators_intertwine_left : forall (R : cring) d Dl k Dr Dwl Dwr (BL BR : env R) (W : osite R) (Q : site R) (C : mx R),
+  (0 < d)%nat -> (0 < Dwl)%nat -> (0 < Dwr)%nat -> wsite d Dl k Q -> lcoiso Q -> wmx k Dr C -> osite_ok d Dwl Dwr W ->
+  wenv Dwl Dl Dl BL -> wenv Dwr Dr Dr BR ->
+  apply_local_hamiltonian BL BR W (rmul_site Q C) =
+  rmul_site Q (apply_local_bond_contraction (contraction_operator_step_left Q Q W BL) BR C).
+Proof. exact alh_intertwine_left. Qed.
+Print Assumptions C09_local_operators_intertwine_left.
+
+Theorem C09_local_operators_intertwine_right : forall (R : cring) d Dl k Dr Dwl Dwr (BL BR : env R) (W : osite R) (B : site R) (C : mx R),
+  (0 < d)%nat -> (0 < Dwl)%nat -> (0 < Dwr)%nat -> wsite d k Dr B -> rcoiso B -> wmx Dl k C -> osite_ok d Dwl Dwr W ->
+  wenv Dwl Dl Dl BL -> wenv Dwr Dr Dr BR ->
+  apply_local_hamiltonian BL BR W (lmul_site C B) =
+  lmul_site (apply_local_bond_contraction BL (contraction_operator_step_right B B W BR) C) B.
+Proof. exact alh_intertwine_right. Qed.
+Print Assumptions C09_local_operators_intertwine_right.
+
+(* L = 1: the site flow is the global flow; contracts (F), (A), (G) only *)
+Theorem C09_exact_L1 : forall (R : cring) orth qr (kexp : kexp_t R) (kexp0 : kexp0_t R) (H : mpo R) psi dt hdt n d Ds DW G A1 qD1 nrm tr,
+  length (o_A H) = 1%nat ->
+  tdvp_singlesite orth qr kexp kexp0 H psi dt hdt n = Some (A1, qD1, nrm, tr) ->
+  (0 < d)%nat -> osite_ok d (DW 0%nat) (DW 1%nat) (nth 0 (o_A H) []) -> DW 0%nat = 1%nat -> DW 1%nat = 1%nat -> Ds 0%nat = 1%nat -> Ds 1%nat = 1%nat ->
+  kexp_flowH (o_A H) d Ds DW kexp -> kexp_global (o_A H) d Ds G 0 kexp -> G_flow (o_A H) d G ->
+  wsite d 1 1 (nth 0 (m_A (fst (orth psi))) []) ->
+  nrm = snd (orth psi) /\ dense d 1 A1 = G (nmul n dt) (dense d 1 (m_A (fst (orth psi)))).
+Proof. exact tdvp1_exact_L1. Qed.
+Print Assumptions C09_exact_L1.
+
+(* L = 2, d arbitrary, bond dimensions 1, d, 1 (split site 1) *)
+Theorem C09_exact_L2 : forall (R : cring) orth qr (kexp : kexp_t R) (kexp0 : kexp0_t R) (H : mpo R) psi dt hdt n d DW G A1 qD1 nrm tr,
+  let Ds := fun j => if Nat.eqb j 1 then d else 1%nat in
+  length (o_A H) = 2%nat ->
+  tdvp_singlesite orth qr kexp kexp0 H psi dt hdt n = Some (A1, qD1, nrm, tr) ->
+  (0 < d)%nat -> (forall j, (j < 2)%nat -> osite_ok d (DW j) (DW (S j)) (nth j (o_A H) [])) -> (forall j, (0 < DW j)%nat) ->
+  DW 0%nat = 1%nat -> DW 2%nat = 1%nat -> kadd R hdt hdt = dt ->
+  kexp_flowH (o_A H) d Ds DW kexp -> kexp0_shape (o_A H) Ds DW kexp0 ->
+  intertwine_left (o_A H) d Ds DW kexp kexp0 -> intertwine_right (o_A H) d Ds DW kexp kexp0 ->
+  kexp_global (o_A H) d Ds G 1 kexp -> G_flow (o_A H) d G ->
+  wsite d 1 d (nth 0 (m_A (fst (orth psi))) []) -> wsite d d 1 (nth 1 (m_A (fst (orth psi))) []) ->
+  ex_tr_ok qr (rev tr) ->
+  nrm = snd (orth psi) /\ dense d 2 A1 = G (nmul n dt) (dense d 2 (m_A (fst (orth psi)))).
+Proof. exact tdvp1_exact_L2. Qed.
+Print Assumptions C09_exact_L2.
+
+(* every L >= 1, every number of steps, every complete bond profile / split site m *)
+Theorem C09_exact_complete : forall (R : cring) orth qr (kexp : kexp_t R) (kexp0 : kexp0_t R) (H : mpo R) psi dt hdt n d Ds DW m G A1 qD1 nrm tr,
+  let L := length (o_A H) in
+  tdvp_singlesite orth qr kexp kexp0 H psi dt hdt n = Some (A1, qD1, nrm, tr) ->
+  (0 < d)%nat -> (forall j, (j < L)%nat -> osite_ok d (DW j) (DW (S j)) (nth j (o_A H) [])) -> (forall j, (0 < DW j)%nat) ->
+  DW 0%nat = 1%nat -> DW L = 1%nat -> complete_profile (o_A H) d Ds m -> kadd R hdt hdt = dt ->
+  kexp_flowH (o_A H) d Ds DW kexp -> kexp0_shape (o_A H) Ds DW kexp0 ->
+  intertwine_left (o_A H) d Ds DW kexp kexp0 -> intertwine_right (o_A H) d Ds DW kexp kexp0 ->
+  kexp_global (o_A H) d Ds G m kexp -> G_flow (o_A H) d G ->
+  (forall j, (j < L)%nat -> wsite d (Ds j) (Ds (S j)) (nth j (m_A (fst (orth psi))) [])) ->
+  (forall j, (m < j < L)%nat -> runitary (nth j (m_A (fst (orth psi))) [])) ->
+  ex_tr_ok qr (rev tr) ->
+  nrm = snd (orth psi) /\ dense d L A1 = G (nmul n dt) (dense d L (m_A (fst (orth psi)))).
+Proof. exact tdvp1_exact. Qed.
+Print Assumptions C09_exact_complete.
+
+(* ---------------- non-vacuity of C09_exact_complete ----------------
+   Proofs/ExactExample.v: L = 2, d = 2, bond dimensions 1, 2, 1, rational entries, 2 steps with dt = 1/3;
+   H = sigma^+ (x) sigma^+ as an MPO (H^2 = 0, exp(tH) = 1 + tH);  site solver A -> (A[0] + t BL[0]^T A[1] BR[0], A[1]) and bond
+   solver C -> C + t BL[0]^T C BR[0] -- the (nilpotent, hence exact) first-order exponentials of the model's
+   apply_local_hamiltonian / apply_local_bond_contraction (alh_x, albc_x), depending on the environment blocks;
+   G t (v00, v01, v10, v11) = (v00 + t v11, v01, v10, v11);  the contracts (F), (S0), (IL), (IR), (A) with m = 1, (G) are proved
+   for ALL arguments over any cring;  QR oracle = a fixed rational rotation Q, R = Q^H M (per-call contracts evaluated by the
+   kernel on the recorded trace);  orth oracle = division of the first tensor by 2, reported norm 2. *)
+Example C09_exact_nonvacuous :
+  rn e_run = snd (x_orth e_Psi) /\
+  dense 2 2 (rA e_run) = Gx Qcring (nmul e_steps e_dt) (dense 2 2 (m_A (fst (x_orth e_Psi)))).
+Proof. exact e_exact. Qed.
+(* ... the dense state after the run differs from the start, the kernel computes the same conclusion, the reported norm is 2,
+   and 18 calls were traced *)
+Example C09_exact_nontrivial :
+  negb (list_eqb (keqb Qcring) (dense 2 2 (rA e_run)) (dense 2 2 (m_A (fst (x_orth e_Psi))))) &&
+  list_eqb (keqb Qcring) (dense 2 2 (rA e_run)) (Gx Qcring (nmul e_steps e_dt) (dense 2 2 (m_A (fst (x_orth e_Psi))))) &&
+  keqb Qcring (rn e_run) (xq 2 1) && Nat.eqb (length (rt e_run)) 18 = true.
+Proof. exact e_nontrivial. Qed.
